@@ -163,6 +163,12 @@ def check(ctx):
     core.run_harness(h, ["alloc"] + largs + ["-out", t], wd)
     runner.run_job(ctx, _job(ctx, "letters", t, _replay_seq, rerun=_rerun([str(a) for a in largs])))
     paths.append(t)
+    if prop == "C05":
+        # pools of 2^64 blocks and more: refused, or else able to allocate
+        t = os.path.join(wd, "huge.ndjson")
+        hargs = ["-mode", "huge"]
+        core.run_harness(h, ["alloc"] + hargs + ["-out", t], wd)
+        runner.run_job(ctx, _job(ctx, "huge", t, _rerun(hargs), inv=()))
     st = _stats(paths)
     st["tlc_generated_behaviours_replayed"] = len(scns)
     conc = {}
